@@ -67,6 +67,31 @@ class RealEncoder(AbstractItemEncoder):
 class SetEncoder(AbstractItemEncoder):
     protoDict = dict
 
+    @staticmethod
+    def _getComponents(value, namedTypes):
+        """Iterate over named components without instantiating the absent ones.
+
+        Encoding must not modify the value being encoded: an OPTIONAL
+        component that has never been set is skipped and the value of an
+        unset DEFAULT component is taken from the type, rather than being
+        stored in the value as a side effect of reading it.
+        """
+        for idx, key in enumerate(value.keys()):
+            component = value.getComponentByPosition(
+                idx, default=None, instantiate=False)
+
+            if component is None:
+                if namedTypes and namedTypes[idx].isOptional:
+                    continue
+
+                if namedTypes and namedTypes[idx].isDefaulted:
+                    component = namedTypes[idx].asn1Object
+
+                else:
+                    component = value[idx]
+
+            yield key, component
+
     def encode(self, value, encodeFun, **options):
         inconsistency = value.isInconsistent
         if inconsistency:
@@ -75,9 +100,7 @@ class SetEncoder(AbstractItemEncoder):
         namedTypes = value.componentType
         substrate = self.protoDict()
 
-        for idx, (key, subValue) in enumerate(value.items()):
-            if namedTypes and namedTypes[idx].isOptional and not value[idx].isValue:
-                continue
+        for key, subValue in self._getComponents(value, namedTypes):
             substrate[key] = encodeFun(subValue, **options)
         return substrate
 
@@ -95,7 +118,9 @@ class SequenceOfEncoder(AbstractItemEncoder):
 
 
 class ChoiceEncoder(SequenceEncoder):
-    pass
+    @staticmethod
+    def _getComponents(value, namedTypes):
+        return value.items()
 
 
 class AnyEncoder(AbstractItemEncoder):
